@@ -264,25 +264,23 @@ theorem partition_eq {α β : Type} (a : List α) (d : List β) (ci : List Int) 
     generalize l0 :: ls = lens at *
     by_cases hsq : allEqual lens = true
     · simp only [hsq, if_true, hpa, hpd]
-    · have hpos := sum_pos_of_not_allEqual lens (by simpa using hsq)
-      have ha0 : ¬ a.length = 0 := by omega
-      have hd0 : ¬ d.length = 0 := by omega
-      simp only [hsq, raggedArray, ha0, hd0, if_false, hpa, hpd]
+    · simp only [hsq, raggedArray, hpa, hpd]
       simp
 
-/-- `partition` fails on inconsistent input -/
+/-- `partition` fails on inconsistent input: IndexError for empty `lengths`, DataInvalid when the
+lengths do not sum to the length of both flat arrays -/
 theorem partition_err {α β : Type} (a : List α) (d : List β) (ci : List Int) (lens : List Nat)
     (h : lens = [] ∨ lens.sum ≠ a.length ∨ lens.sum ≠ d.length) :
-    ∃ e, partition a d ci lens = .error e := by
+    partition a d ci lens = .error (if lens = [] then .indexError else .dataInvalid) := by
   cases lens with
-  | nil => exact ⟨_, rfl⟩
+  | nil => rfl
   | cons l0 ls =>
     have h' : (l0 :: ls).sum ≠ a.length ∨ (l0 :: ls).sum ≠ d.length := by
       rcases h with h | h
       · simp at h
       · exact h
     clear h
-    simp only [partition]
+    simp only [partition, reduceCtorEq, if_false]
     generalize l0 :: ls = lens at *
     by_cases ha : lens.sum = a.length
     · have hd : lens.sum ≠ d.length := by
@@ -292,12 +290,11 @@ theorem partition_err {α β : Type} (a : List α) (d : List β) (ci : List Int)
       have hpa := partitionList_ok a lens ha
       have hpd := partitionList_err d lens hd
       by_cases hsq : allEqual lens = true
-      · simp only [hsq, if_true, hpa, hpd]; exact ⟨_, rfl⟩
-      · by_cases ha0 : a.length = 0 <;> by_cases hd0 : d.length = 0 <;>
-          simp [hsq, raggedArray, ha0, hd0, hpa, hpd]
+      · simp only [hsq, if_true, hpa, hpd]
+      · simp [hsq, raggedArray, hpa, hpd]
     · have hpa := partitionList_err a lens ha
       by_cases hsq : allEqual lens = true
-      · simp only [hsq, if_true, hpa]; exact ⟨_, rfl⟩
-      · by_cases ha0 : a.length = 0 <;> simp [hsq, raggedArray, ha0, hpa]
+      · simp only [hsq, if_true, hpa]
+      · simp [hsq, raggedArray, hpa]
 
 end Ens.Assign
